@@ -475,6 +475,12 @@ func runPass(b *build, prop string, seed uint64, secs float64, nWorkers int, rac
 	// state right after process start is part of the history space, too
 	// ("restart" is the only crash this library can experience).
 	coldShare := 0.15
+	coldRuns := "6"
+	if !race {
+		// plain build: a process starts in a few milliseconds, restarts are cheap
+		coldShare = 0.25
+		coldRuns = "4"
+	}
 	longSecs := secs * (1 - coldShare)
 	coldSecs := secs * coldShare
 	var mu sync.Mutex
@@ -500,7 +506,7 @@ func runPass(b *build, prop string, seed uint64, secs float64, nWorkers int, rac
 				if race {
 					raceLog = filepath.Join(b.Dir, fmt.Sprintf("race-c%d", id))
 				}
-				o := runWorker(bin, []string{"run", "-prop", prop, "-seed", fmt.Sprint(seed), "-worker", fmt.Sprint(id), "-runs", "6", "-outdir", b.Dir, "-cold", "-known", knownFilePath()}, 2, raceLog)
+				o := runWorker(bin, []string{"run", "-prop", prop, "-seed", fmt.Sprint(seed), "-worker", fmt.Sprint(id), "-runs", coldRuns, "-outdir", b.Dir, "-cold", "-known", knownFilePath()}, 2, raceLog)
 				mu.Lock()
 				outs = append(outs, o)
 				mu.Unlock()
